@@ -23,8 +23,8 @@ import (
 	"github.com/invopop/gobl/num"
 	"github.com/invopop/gobl/org"
 	"github.com/invopop/gobl/tax"
-	"github.com/invopop/validation"
 	"github.com/invopop/gobl/verifharness/internal/vh"
+	"github.com/invopop/validation"
 )
 
 func TestMain(m *testing.M) { vh.Main(m, "C13") }
@@ -361,7 +361,7 @@ func selfTest() {
 func init() {
 	selfTest()
 	vh.Describe(
-		"Per regime with a tax-identity rule (AT BE BR CH CO DE ES FR GB GR/EL IN IT NL PL PT; format-only AE MX) candidate codes are: codes CONSTRUCTED valid with an independent reference implementation of the national algorithm (30%); one decimal digit of such a code replaced by another (20%); one character replaced by any other of the national alphabet (10%); strings constructed to land on the special-remainder branch of the scheme (remainder 10/11/0-1 folding, check 97 vs 00, ...) with the folded, neighbouring and random check characters (15%); right shape with random check characters, legacy lengths and reserved prefixes (15%); random strings of the national alphabet at the national length +-1 (5%); valid codes with one character dropped or doubled (5%); plus an exhaustive enumeration of every single-character substitution (every position x whole national alphabet) of a fixed list of valid codes per regime (checks '<cc>_edits'). A quarter of the GB candidates carry the alternative tax country codes XI / XU that the published regime file lists (same rule). Oracle: accepted(code) <=> reference(code), observed through tax.Identity.Validate and org.Party validation (which must agree) with the regime registered and an already-normalised code; the reference is tri-state and says 'unsettled' (nothing asserted, class unsettled-*) wherever the national rule could not be settled offline. Single-digit law: for AT BE CH DE ES(DNI/NIE/entity, not K/L/M) FR IN IT PL a digit-for-digit substitution in an accepted code must be rejected. Normaliser (checks '<cc>_normalise'): for canonical codes x and written forms y of x (spaces, dots, dashes, slashes between characters, leading/trailing space, lower case, country prefix with optional separator; EL and GR for Greece, either as Identity.Country) N(y)=N(x), N(N(y))=N(y), digits of N(y) = digits of x (FR: a bare valid SIREN gains its two key digits in front), and a reference-valid code in normal form is a fixed point of N. In a document: for half of the written forms and an eighth of the candidate codes the identity is also placed as the customer of an invoice of another regime (chosen by the code's hash among all registered regimes): calculation must normalise it exactly as on its own and the invoice's validation must judge customer.tax_id exactly as the identity on its own. Non-trivial: reference-valid code, or single-substitution of a valid code, or a code on the special-remainder branch; for the normaliser any variant other than the plain code.",
+		"Per regime with a tax-identity rule (AT BE BR CH CO DE ES FR GB GR/EL IN IT NL PL PT; format-only AE MX) candidate codes are: codes CONSTRUCTED valid with an independent reference implementation of the national algorithm (30%); one decimal digit of such a code replaced by another (20%); one character replaced by any other of the national alphabet (10%); strings constructed to land on the special-remainder branch of the scheme (remainder 10/11/0-1 folding, check 97 vs 00, ...) with the folded, neighbouring and random check characters (15%); right shape with random check characters, legacy lengths and reserved prefixes (15%); random strings of the national alphabet at the national length +-1 (5%); valid codes with one character dropped or doubled (5%); plus an exhaustive enumeration of every single-character substitution (every position x whole national alphabet) of a fixed list of valid codes per regime (checks '<cc>_edits'). A quarter of the GB candidates carry the alternative tax country codes XI / XU that the published regime file lists (same rule). Oracle: accepted(code) <=> reference(code), observed through tax.Identity.Validate and org.Party validation (which must agree) with the regime registered and an already-normalised code; the reference is tri-state and says 'unsettled' (nothing asserted, class unsettled-*) wherever the national rule could not be settled offline. Single-digit law: for AT BE CH DE ES(DNI/NIE/entity, not K/L/M) FR IN IT PL a digit-for-digit substitution in an accepted code must be rejected. Normaliser (checks '<cc>_normalise'): for canonical codes x and written forms y of x (spaces, dots, dashes, slashes between characters, leading/trailing space, lower case, country prefix with optional separator; EL and GR for Greece, either as Identity.Country; for Switzerland the VAT suffixes MWST / TVA / IVA in any letter case, with or without a separator in front and a blank or dot behind) N(y)=N(x), N(N(y))=N(y), digits of N(y) = digits of x (FR: a bare valid SIREN gains its two key digits in front), and a reference-valid code in normal form is a fixed point of N. In a document: for half of the written forms and an eighth of the candidate codes the identity is also placed as the customer of an invoice of another regime (chosen by the code's hash among all registered regimes): calculation must normalise it exactly as on its own and the invoice's validation must judge customer.tax_id exactly as the identity on its own. Non-trivial: reference-valid code, or single-substitution of a valid code, or a code on the special-remainder branch; for the normaliser any variant other than the plain code.",
 		"national algorithms as published (EU VIES algorithm descriptions, BMF, KBO, Receita Federal, BFS UID, DIAN, BZSt ISO 7064, AEAT/Orden EHA/451/2008, INSEE, HMRC, AADE, GSTN, Agenzia Entrate, Belastingdienst 11-proef + 2020 mod-97, Polish NIP, Portuguese NIF); references were written from these descriptions, not from the repository",
 		"not asserted (unsettled): all-zero bodies; BE 9-digit legacy form, leading 1, 00 prefix; BR alphanumeric CNPJ (2026); CO lengths other than 9-10; ES K/L/M control scheme and digit-vs-letter control convention of entity codes; FR letter keys and SIREN Luhn; GB registration ranges and check 00 vs 97 when the sum is a multiple of 97; IN 14th character other than Z and state codes outside the list; NL suffix B00; PL office prefixes outside 101-998; PT leading digits outside the published list; MX date / check character of the RFC",
 		"single-digit law not asserted for GB and NL (two alternative algorithms), GR PT BR CO (remainder folding maps two remainders to one digit), letter positions, AE/MX (no check digit)",
